@@ -126,21 +126,22 @@ def runtime_part(run, tier):
                           "random DAG seed %d (%d ops, shared intermediates): %s [%d of %d DAGs fail]" % (bd["seed"], bd["ops"], bd["what"], r["n_bad"], ndag),
                           key={"family": "dag", "seed": bd["seed"], "clause": "dag"}, replay={"cmd": j["cmd"].replace(json_of(spec), json_of({**spec, "first_seed": bd["seed"], "count": 1})), "case": bd})
     # several roots over one shared trunk, one sweep per root
-    spec = {"kind": "heads", "configs": [[40, 2], [40, 3], [3000, 3], [7, 5]]}
+    # ... also when interior nodes keep their gradient between the sweeps (retain_grad() on trunk nodes, sweeps inside retain_grads(), the same root swept repeatedly)
+    spec = {"kind": "heads", "configs": [[40, 2], [40, 3], [3000, 3], [7, 5]] + [[n_, h_, m_] for m_ in ("retain_grad", "retain_grads", "same_root") for n_, h_ in ((7, 3), (40, 2), (3000, 2))]}
     j = deep.run_job(spec, timeout=600)
     if j["status"] != "ok":
         run.error("heads job: %s in phase %s: %s" % (j["status"], j.get("last_phase"), j.get("stderr_tail", "")[-400:]))
     else:
         for cfg in j["result"]["configs"]:
-            run.rt(("heads", cfg["trunk_ops"], cfg["heads"]))
-            key = {"family": "shared trunk", "trunk_ops": cfg["trunk_ops"], "heads": cfg["heads"]}
+            run.rt(("heads", cfg["trunk_ops"], cfg["heads"], cfg.get("mode")))
+            key = {"family": "shared trunk", "trunk_ops": cfg["trunk_ops"], "heads": cfg["heads"], "mode": cfg.get("mode", "plain")}
             bad = None
             for si, sw in enumerate(cfg["sweeps"]):
                 if not sw["completed"]:
                     bad = ("backward.completes_on_any_graph", "sweep %d raised %s: %s" % (si, sw["exception"], sw["message"]))
                 elif sw["calls_total"] != sw["recorded_ops"] or sw["calls_max_per_op"] != 1 or sw["ops_never_called"]:
-                    bad = ("backward.each_op_exactly_once", "sweep %d (root %d of %d over a shared trunk of %d ops): %d recorded ops reachable, %d grad_fn invocations, %d never invoked"
-                           % (si, si, cfg["heads"], cfg["trunk_ops"], sw["recorded_ops"], sw["calls_total"], sw["ops_never_called"]))
+                    bad = ("backward.each_op_exactly_once", "sweep %d (root %d of %d over a shared trunk of %d ops, %s): %d recorded ops reachable, %d grad_fn invocations, %d never invoked"
+                           % (si, si, cfg["heads"], cfg["trunk_ops"], cfg.get("mode", "plain"), sw["recorded_ops"], sw["calls_total"], sw["ops_never_called"]))
                 if bad:
                     break
             if not bad and (cfg["grad_rel_err"] is None or not cfg["grad_rel_err"] <= REL_TOL):
